@@ -107,9 +107,17 @@ pub fn enumerate_structures(thorough: bool) -> Vec<StructSpec> {
         shapes.push(vec![(true, 2), (false, 2), (false, 1)]);
         shapes.push(vec![(true, 3), (false, 1)]);
     }
+    // one wide anarchy: many attributes, encryption policies with 8 / 16 / 32 / 33 / 40 targets
+    shapes.push(vec![(false, 40)]);
     let mut out = vec![];
     for shape in shapes {
         let k: usize = shape.iter().map(|(_, s)| s).sum();
+        if k == 40 {
+            for hyb in [false, true] {
+                out.push(StructSpec { dims: vec![DimSpec { name: "W".into(), ordered: false, attrs: (0..40).map(|i| format!("w{i}")).collect(), hybrid: vec![hyb; 40], script: (0..40).collect() }], variant: Variant::Plain });
+            }
+            continue;
+        }
         // hint assignments
         let mut hints: Vec<Vec<bool>> = vec![];
         if k <= 4 && (thorough || k <= 3) {
@@ -168,7 +176,7 @@ pub fn enumerate_structures(thorough: bool) -> Vec<StructSpec> {
                         let d = DimSpec {
                             name: DIM_NAMES[di].to_string(),
                             ordered: *ordered,
-                            attrs: ATTR_NAMES[..*s].iter().map(|a| a.to_string()).collect(),
+                            attrs: if *s <= 3 { ATTR_NAMES[..*s].iter().map(|a| a.to_string()).collect() } else { (0..*s).map(|i| format!("w{i}")).collect() },
                             hybrid: h[off..off + s].to_vec(),
                             script: sc[di].clone(),
                         };
@@ -337,6 +345,17 @@ pub struct CellStats {
 
 fn policies(spec: &StructSpec, thorough: bool) -> Vec<Vec<Clause>> {
     let p1 = clauses(spec);
+    if spec.dims.len() == 1 && spec.dims[0].attrs.len() > 3 {
+        // wide anarchy: a few single attributes and wide disjunctions
+        let n = spec.dims[0].attrs.len();
+        let single = |i: usize| -> Clause { vec![Some(i)] };
+        let mut out: Vec<Vec<Clause>> = vec![vec![vec![None]], vec![single(0)], vec![single(7)], vec![single(31)], vec![single(32)], vec![single(n - 1)]];
+        for k in [2usize, 8, 16, 32, 33, n] {
+            out.push((0..k).map(single).collect());
+        }
+        out.push((8..24).rev().map(single).collect());
+        return out;
+    }
     let mut out: Vec<Vec<Clause>> = p1.iter().map(|c| vec![c.clone()]).collect();
     let full_pairs = spec.omega() <= 16 || (thorough && spec.omega() <= 24);
     for i in 0..p1.len() {
